@@ -4,8 +4,11 @@
 -/
 import SvgVerif.Model.Write
 import SvgVerif.Props.C04
+import SvgVerif.Props.C13
+import SvgVerif.Model.DocShape
 import Mathlib.Algebra.Order.AbsoluteValue.Basic
 import Mathlib.Tactic.Linarith
+import Mathlib.Tactic.IntervalCases
 namespace Svg.Write
 open Svg Svg.Mat Svg.C04
 
@@ -75,4 +78,157 @@ theorem C20_six_decimal_bound (W W' : Mat K) (ε : K) (p : Pt K)
     rw [this]; exact key _ _ _ _ _ hb hd hf
 
 end Bound
+
+/-! ### paint -/
+section Paint
+open Svg.Color Svg.Doc
+set_option linter.unusedSectionVars false
+
+theorem hexChar_ok (d : Nat) (h : d < 16) : isHexDigit (hexChar d) = true ∧ hexDigitVal (hexChar d) = d := by
+  interval_cases d <;> decide
+
+theorem matchHex_written (ds : List Nat) (hd : ∀ d ∈ ds, d < 16) (hl : 3 ≤ ds.length ∧ ds.length ≤ 8) :
+    matchHex ('#' :: ds.map hexChar) = some ds := by
+  unfold matchHex
+  have hall : (ds.map hexChar).all isHexDigit = true := by
+    simp only [List.all_map, List.all_eq_true, Function.comp]
+    intro d hdm; exact (hexChar_ok d (hd d hdm)).1
+  have hval : (ds.map hexChar).map hexDigitVal = ds := by
+    rw [List.map_map]
+    conv => rhs; rw [← List.map_id ds]
+    apply List.map_congr_left
+    intro d hdm; exact (hexChar_ok d (hd d hdm)).2
+  simp only [List.length_map, hall, hl.1, hl.2, and_self, if_true, hval]
+
+theorem digits_opaque (v : Nat) :
+    (∀ d ∈ hexDigits (setAlpha v 255), d < 16) ∧ (hexDigits (setAlpha v 255)).length = 6 := by
+  have ha : alpha (setAlpha v 255) = 255 := by
+    have hc : crimp 255 = 255 := by decide
+    simp only [alpha, setAlpha, hc]; omega
+  unfold hexDigits
+  rw [if_pos ha]
+  constructor
+  · intro d hd
+    simp only [byteDigits, List.cons_append, List.nil_append, List.mem_cons, List.not_mem_nil, or_false] at hd
+    omega
+  · rfl
+
+variable {K : Type} [Field K] [LinearOrder K] [Trig K] [Color.PyRound K]
+
+/-- the colour text the writer emits is read as the opaque colour -/
+theorem parse_written (num : NumLit → K) (tau : K) (v : Nat) (hv : v < 4294967296) :
+    Color.parse num tau ('#' :: (hexDigits (setAlpha v 255)).map hexChar) = some (setAlpha v 255) := by
+  obtain ⟨hd, hl⟩ := digits_opaque v
+  unfold Color.parse
+  rw [if_neg (by intro h; cases h)]
+  rw [matchHex_written _ hd (by omega)]
+  simp only
+  rw [C13.C13_hex_roundtrip _ (C13.C13_setter_range v 255 hv).2.2.2]
+
+theorem setAlpha_restore (v : Nat) (n : Int) (hn : crimp n = alpha v) : setAlpha (setAlpha v 255) n = v := by
+  have hc : crimp 255 = 255 := by decide
+  simp only [setAlpha, alpha, hc] at hn ⊢
+  rw [hn]
+  omega
+
+/-- what the reader makes of the opacity text it finds, against the alpha it has to restore: no
+    text, or text `float()` rejects, leaves the colour opaque; a number `x` sets
+    `int(round(x * 255))` clamped to a byte -/
+def OpacityOK (cfg : Cfg K) (a : Nat) : Option String → Prop
+  | none => a = 255
+  | some t =>
+    match pyFloat? cfg t with
+    | none => a = 255
+    | some x => crimp (PyRound.round (x * ((255 : Nat) : K))) = a
+
+/-- **Paint round trip.** An element that carries the colour text the writer emits for the packed
+    RGBA value `v` (`str(abs(colour))`), and an opacity text the reader resolves to `v`'s alpha, is
+    read back by the shape constructor with exactly the fill/stroke `v`: same red, green, blue and
+    alpha. -/
+theorem C20_paint_roundtrip (cfg : Cfg K) (tau : K) (d : Dict) (key opKey opKey2 : String) (v : Nat)
+    (hv : v < 4294967296)
+    (htext : Dict.get d key = (writtenPaint (K := K) (some (some v))).text)
+    (hop : OpacityOK cfg (alpha v) (match Dict.get d opKey with | some o => some o | none => Dict.get d opKey2)) :
+    paintOf cfg tau d key opKey opKey2 = some (some v) := by
+  unfold paintOf
+  simp only [writtenPaint] at htext
+  rw [htext]
+  simp only [String.toList_ofList]
+  rw [parse_written cfg.num tau v hv]
+  have hfull : alpha v = 255 → setAlpha v 255 = v := by
+    intro h; simp only [setAlpha, alpha] at h ⊢
+    have hc : crimp 255 = 255 := by decide
+    rw [hc]; omega
+  have key2 : ∀ ot : Option String, OpacityOK cfg (alpha v) ot →
+      (match some (setAlpha v 255), ot with
+        | some w, some o =>
+          (match pyFloat? cfg o with
+           | some x => some (some (setAlpha w (PyRound.round (x * ((255 : Nat) : K)))))
+           | none => some (some w))
+        | c, _ => some c) = some (some v) := by
+    intro ot hot
+    cases ot with
+    | none => simp only [OpacityOK] at hot; simp only [hfull hot]
+    | some t =>
+      simp only [OpacityOK] at hot
+      cases hf : pyFloat? cfg t with
+      | none => simp only [hf] at hot ⊢; rw [hfull hot]
+      | some x => simp only [hf] at hot ⊢; rw [setAlpha_restore v _ hot]
+  cases h1 : Dict.get d opKey with
+  | some o => rw [h1] at hop; exact key2 (some o) hop
+  | none =>
+    rw [h1] at hop
+    have := key2 (Dict.get d opKey2) hop
+    cases h2 : Dict.get d opKey2 with
+    | none => rw [h2] at this; simpa using this
+    | some o =>
+      rw [h2] at this
+      cases hf : pyFloat? cfg o with
+      | none => simp only [hf] at this ⊢; exact this
+      | some x => simp only [hf] at this ⊢; exact this
+
+/-- the opacity number the writer emits for a translucent colour, `alpha / 255`, restores that
+    alpha (exact arithmetic; `round` fixes the integers) -/
+theorem C20_written_opacity_restores (v : Nat) (h255 : ((255 : Nat) : K) ≠ 0)
+    (hround : ∀ n : Nat, PyRound.round ((n : Nat) : K) = (n : Int)) (x : K)
+    (hx : (writtenPaint (K := K) (some (some v))).opacity = some x) :
+    crimp (PyRound.round (x * ((255 : Nat) : K))) = alpha v := by
+  simp only [writtenPaint] at hx
+  split at hx
+  · cases hx
+  · injection hx with hx
+    subst hx
+    rw [div_mul_cancel₀ _ h255, hround]
+    apply C13.crimp_of_byte
+    simp only [alpha]; omega
+
+/-- and an opaque colour is written without an opacity attribute -/
+theorem C20_opaque_writes_no_opacity (v : Nat) (h : alpha v = 255) :
+    (writtenPaint (K := K) (some (some v))).opacity = none := by
+  simp only [writtenPaint, h, if_true]
+
+/-- a colour without value is written as `none` and read back as no paint; a paint that is not set
+    is not written and not read -/
+theorem C20_paint_none (cfg : Cfg K) (tau : K) (d : Dict) (key opKey opKey2 : String)
+    (htext : Dict.get d key = (writtenPaint (K := K) (some none)).text) :
+    paintOf cfg tau d key opKey opKey2 = some none := by
+  unfold paintOf
+  simp only [writtenPaint] at htext
+  rw [htext]
+  have : Color.parse cfg.num tau "none".toList = none := by
+    unfold Color.parse; rw [if_pos rfl]
+  simp only [this]
+
+theorem C20_paint_unset (cfg : Cfg K) (tau : K) (d : Dict) (key opKey opKey2 : String)
+    (htext : Dict.get d key = (writtenPaint (K := K) none).text) :
+    paintOf cfg tau d key opKey opKey2 = none := by
+  unfold paintOf
+  simp only [writtenPaint] at htext
+  rw [htext]
+
+/-- non-vacuity: a translucent colour, its written digits, and the alpha restored from 128 -/
+example : hexDigits (setAlpha 0x11223380 255) = [1, 1, 2, 2, 3, 3] ∧
+    setAlpha (setAlpha 0x11223380 255) 128 = 0x11223380 ∧ crimp 128 = alpha 0x11223380 := by decide
+
+end Paint
 end Svg.Write
